@@ -2030,8 +2030,20 @@ class Interp:
                 raise Inconclusive("a loop over a generator of the repository leaves its body by break / continue in a way the generator fusion does not read", s)
             s = copy.copy(s)
             s.body = body_
+        # a bare `return` directly in the generator's last, outermost loop ends the iteration: it is `break` of that loop (nothing follows it)
+        returns_as_break = set()
+        gstmts = [st for st in func.node.body if not (isinstance(st, ast.Expr) and isinstance(st.value, ast.Constant) and isinstance(st.value.value, str))]
+        if gstmts and isinstance(gstmts[-1], (ast.For, ast.While)) and not gstmts[-1].orelse:
+            def collect(stmts):
+                for st in stmts:
+                    if isinstance(st, ast.Return) and st.value is None:
+                        returns_as_break.add(id(st))
+                    elif isinstance(st, ast.If):
+                        collect(st.body)
+                        collect(st.orelse)
+            collect(gstmts[-1].body)
         for n in _own_nodes(func.node):
-            if isinstance(n, (ast.Return, ast.Try, ast.With, ast.Global, ast.Nonlocal)):
+            if isinstance(n, (ast.Try, ast.With, ast.Global, ast.Nonlocal)) or (isinstance(n, ast.Return) and id(n) not in returns_as_break):
                 return None
         yields = [n for n in _own_nodes(func.node) if isinstance(n, (ast.Yield, ast.YieldFrom))]
         stmt_yields = [n for n in _own_nodes(func.node) if isinstance(n, ast.Expr) and isinstance(n.value, (ast.Yield, ast.YieldFrom))]
@@ -2112,8 +2124,20 @@ class Interp:
                 if counter:
                     new.append(ast.AugAssign(ast.Name(cnt, ast.Store()), ast.Add(), ast.Constant(1)))
                 return [ast.copy_location(x, n) for x in new]
-        gbody = [Yld().visit(Ren().visit(copy.deepcopy(st))) for st in func.node.body
-                 if not (isinstance(st, ast.Expr) and isinstance(st.value, ast.Constant) and isinstance(st.value.value, str))]
+        def as_break(st):
+            # (on the original nodes, before copying: the set holds their identities)
+            if isinstance(st, ast.Return) and id(st) in returns_as_break:
+                return ast.copy_location(ast.Break(), st)
+            if isinstance(st, ast.If) and returns_as_break:
+                st = copy.copy(st)
+                st.body = [as_break(x) for x in st.body]
+                st.orelse = [as_break(x) for x in st.orelse]
+            return st
+        if returns_as_break:
+            last = copy.copy(gstmts[-1])
+            last.body = [as_break(x) for x in last.body]
+            gstmts = gstmts[:-1] + [last]
+        gbody = [Yld().visit(Ren().visit(copy.deepcopy(st))) for st in gstmts]
         flat = []
         for x in gbody:
             flat.extend(x if isinstance(x, list) else [x])
